@@ -217,7 +217,9 @@ class Intersection:
             ggrad[0, 1] = -np.inner(dati, dbuj)
             ggrad[1, 0] = ggrad[0, 1]
             denom = np.linalg.det(ggrad)
-            if np.abs(denom) < 1e-9:
+            # singular relative to the two tangents: parallel up to 1e-7 rad
+            scale = (np.linalg.norm(dati) * np.linalg.norm(dbuj)) ** 2
+            if np.abs(denom) <= 1e-14 * scale:
                 return tuple()  # no convergence
             deltapair = np.linalg.solve(ggrad, grad)
             pair -= deltapair
